@@ -2,9 +2,10 @@
 
 Monitor: every operation of a history is run on the real template object while (a) deep
 fingerprints + identities of all caller-owned data (mapping argument, client object, keyword
-values, sequences, elements, the template's defaults and the constructor mapping) are taken
+values, sequences, elements, the template's defaults, variables and the constructor mapping) are taken
 before and after each render, (b) the bytes of every pickle are scanned (classes referenced,
-volatile attribute names, source / file-content markers, file name) and (c) a __setattr__
+volatile attribute names, source / file-content markers, file name), likewise the state handed out for a copy
+(copy.copy / __getstate__) and (c) a __setattr__
 write log on the compiled tag classes records which attributes of shared compiled objects
 are assigned while a render is running (diagnosis).
 Oracle: metamorphic — every render in a history must equal (value, type, cookies set, or
@@ -26,7 +27,16 @@ ID = 'C17'
 LEVEL = 'exploration'
 RULE = ('one case = (template, operation history, caller-data mode): all histories of length <= 3 '
         '(quick) / <= 4 (thorough) over {render ns1, ns2, ns3, pickle round trip, deepcopy, munge->src1, '
-        'munge->src2, munge->empty source, cook} for each of the catalogue templates, each in two caller-data modes '
+        'munge->src2, munge->empty source, cook}, plus all histories of that length over {render ns1..3, pickle, '
+        'munge->src2, cook, cp} that contain cp (= the template replaced by a copy made from its state: copy.copy or '
+        '__getstate__ -> new object -> __setstate__/__dict__.update, alternating), for each of the catalogue '
+        'templates (every tag; option values that NAME namespace entries whose binding differs between the '
+        'namespaces: sort="key/function", size/start names, tree header/footer/leaves documents, the query string '
+        'of batch links; one name bound to values of different types; defaults and var() variables of special '
+        'value types: str subclass, bytes, __render_with_namespace__ object, callable, None, tuple, nested '
+        'mapping, sub-template, and tainted strings; a non-default encoding given to the constructor; twins = the same source text built with another '
+        'encoding and other defaults in the same process), each in two '
+        'caller-data modes '
         '(persistent: one container object per name refilled in place between renders; fresh: all '
         'objects rebuilt per render), a closing render appended when the last operation is not a '
         'render, plus seeded histories of length 4..8; a case is non-trivial when at least one render '
@@ -38,15 +48,32 @@ ASSUMPTIONS = ['"equal inputs" are namespaces built twice from one recipe: equal
                'counted as a modification of caller data; cookies set on RESPONSE by dtml-tree are part of '
                'the result, not a modification',
                'dict key order of caller mappings is not compared (mapping equality)',
-               'the write log and compiled-state observations are diagnosis, never verdict-bearing']
+               'the write log and compiled-state observations are diagnosis, never verdict-bearing',
+               'the pristine reference of a twin comes from a child interpreter that builds only the twins, so that no '
+               'reference interpreter ever holds two templates with the same source text; in the shards the twin\'s '
+               'histories run after those of the template it shares its source with',
+               'a pickle round trip / deepcopy that raises is accepted only when one of the template\'s default or '
+               'variable values raises the same exception (type and message) when pickled / deep-copied on its own '
+               '(tainted strings refuse both): the history then goes on with the unrestored object; were such a '
+               'template restored after all, its renders are compared like any other',
+               'a copy made from the state shares the default VALUES with the original (shallow by definition): after '
+               'it the caller changes only the original\'s source, not its defaults',
+               'variables set with var() belong to "the same source and defaults": the new template of the oracle '
+               'gets the same var() call, and a munge that replaces the defaults is followed by the var() call of '
+               'the new set (same names in both sets, so whether munge keeps or drops variables is not demanded)']
 SHARD_TIMEOUT = {'quick': 900, 'thorough': 3400}
 NSHARDS = {'quick': 16, 'thorough': 64}
 MAXLEN = {'quick': 3, 'thorough': 4}
 NSEEDED = {'quick': 6000, 'thorough': 100000}
 
 OPS = ('r1', 'r2', 'r3', 'pk', 'dc', 'm1', 'm2', 'm0', 'ck')     # m0: munge to the empty source
+# cp: the template is replaced by a copy made from its STATE without pickling the values (copy.copy, or
+# __getstate__ -> new object -> __setstate__ / __dict__.update, which is what copy and pickle do); enumerated in
+# every position of every history over the reduced alphabet OPS_CP (histories without cp are in the main enumeration)
+OPS_CP = ('r1', 'r2', 'r3', 'pk', 'm2', 'ck', 'cp')
+OPS_SEEDED = OPS + ('cp',)
 KNOWN_TREE_SORT = 'tree-sort-in-place-on-callers-list'
-ROOTS = ('mapping', 'client', 'kw', 'defaults', 'constructor-mapping')
+ROOTS = ('mapping', 'client', 'kw', 'defaults', 'constructor-mapping', 'variables')
 
 
 def plan(tier, seed):
@@ -57,6 +84,10 @@ def all_histories(maxlen):
     for n in range(1, maxlen + 1):
         for h in itertools.product(OPS, repeat=n):
             yield h
+    for n in range(1, maxlen + 1):
+        for h in itertools.product(OPS_CP, repeat=n):
+            if 'cp' in h:
+                yield h
 
 
 # ---------------------------------------------------------------- harness
@@ -88,36 +119,40 @@ class Harness:
         """Three pristine child interpreters (one per namespace) give the reference results of new
         templates that cannot have been influenced by anything rendered before in this process."""
         self.reference = {}
-        for i in (1, 2, 3):
+        for i, extra in itertools.product((1, 2, 3), ([], ['twins'])):
             try:
-                p = subprocess.run([sys.executable, '-m', 'vlib.c17_util', str(i)], timeout=300,
+                p = subprocess.run([sys.executable, '-m', 'vlib.c17_util', str(i)] + extra, timeout=300,
                                    stdout=subprocess.PIPE, stderr=subprocess.PIPE,
                                    cwd=os.environ.get('VERIF_HOME') or None)
                 self.reference.update(json.loads(p.stdout.decode('utf-8')))
             except Exception as e:
-                self.ctx.inconclusive('pristine reference child for namespace %d failed: %s: %s'
-                                      % (i, type(e).__name__, str(e)[:300]))
+                self.ctx.inconclusive('pristine reference child for namespace %d %s failed: %s: %s'
+                                      % (i, extra, type(e).__name__, str(e)[:300]))
         self.ctx.count('pristine reference results loaded', len(self.reference))
 
     def snapshot(self, world, t, ctor_mapping):
         structs, ids = [], []
-        for root in world.roots() + [t.globals, ctor_mapping]:
+        for root in world.roots() + [t.globals, ctor_mapping, getattr(t, '_vars', None)]:
             st, i = self.U.fingerprint(root)
             structs.append(st)
             ids.append(tuple(i))
         return tuple(structs), tuple(ids)
 
-    def scramble(self, old, spec):
+    def scramble(self, old, spec, shallow=False):
         """The caller keeps the old object and is free to change it; a restored or copied template
-        must not notice."""
+        must not notice.  (A shallow copy shares the default values with the original by definition: there only
+        the original's own source is changed.)"""
         try:
             g = old.globals
-            for v in list(g.values()):
-                if getattr(v, 'isDocTemp', 0):
-                    v.munge('SCRAMBLED-SUB')
-                elif isinstance(v, list):
-                    v[:] = ['SCR']
-            old.default(**dict((k, 'SCRAMBLED') for k in list(g)))
+            if not shallow:
+                for v in list(g.values()):
+                    if getattr(v, 'isDocTemp', 0):
+                        v.munge('SCRAMBLED-SUB')
+                    elif isinstance(v, list):
+                        v[:] = ['SCR']
+                old.default(**dict((k, 'SCRAMBLED') for k in list(g)))
+                if spec.defaults in self.U.VARS:
+                    old.var(**dict((k, 'SCRAMBLED-VAR') for k in self.U.VARS[spec.defaults](1)))
             if not spec.is_file:
                 old.munge('SCRAMBLED')
         except Exception:
@@ -143,6 +178,7 @@ class Harness:
         world = U.World(spec.keys, persistent)
         del self.wlog.log[:]
         done = []
+        restored_by = []      # persistence operations the current object has come through
 
         def bad(what, mech=None, **detail):
             detail['operations_done'] = list(done)
@@ -179,6 +215,12 @@ class Harness:
                 want = self.call(fresh, fworld, fworld.apply(i))
                 ctx.count('monitor:renders compared with a fresh template')
                 ctx.count('render outcome:' + got[0])
+                if spec.defaults in U.SPECIAL_DEFAULTS:
+                    for how in sorted(set(o for o in restored_by)):
+                        ctx.count('monitor:renders of a template with %s defaults compared after %s'
+                                  % (U.SPECIAL_DEFAULTS[spec.defaults], how))
+                        ctx.table('special-typed defaults: renders compared (family -> restored by)',
+                                  '%s -> %s' % (spec.defaults, how))
                 if got != want:
                     bad('render differs from a freshly constructed template on an equal namespace: '
                         'got %s, fresh gives %s' % (_short(got), _short(want)),
@@ -192,6 +234,9 @@ class Harness:
                 ref = self.reference.get('%s|%d|%d|%d' % fk)
                 if ref is not None:
                     ctx.count('monitor:fresh results compared with the pristine reference')
+                    if spec.twin_of:
+                        ctx.count('monitor:results of a twin (same source text as another template of the process, '
+                                  'other encoding) compared with its pristine reference')
                     if ref != repr(want):
                         bad('a freshly constructed template renders differently here than a new template in '
                             'an interpreter that never rendered another namespace: %s vs pristine %s'
@@ -204,6 +249,11 @@ class Harness:
                 try:
                     data = pickle.dumps(cur, proto)
                 except Exception as e:
+                    if U.own_refusal(cur, lambda v: pickle.dumps(v, proto)) == (type(e).__name__, str(e)):
+                        # a default value refuses to be pickled on its own account, in the very same words:
+                        # nothing is restored, the history goes on with the object it has
+                        ctx.count('pickles refused by a default value itself (template kept)')
+                        continue
                     bad('pickling the template raised %s: %s' % (type(e).__name__, str(e)[:200]))
                     return
                 try:
@@ -223,15 +273,51 @@ class Harness:
                     bad(p, pickle_length=len(data), pickle_head=repr(data[:300]))
                 self.scramble(cur, spec)
                 cur = new
+                restored_by.append('pickle')
             elif op == 'dc':
                 try:
                     new = copy.deepcopy(cur)
                 except Exception as e:
+                    if U.own_refusal(cur, copy.deepcopy) == (type(e).__name__, str(e)):
+                        ctx.count('deepcopies refused by a default value itself (template kept)')
+                        continue
                     bad('deepcopy of the template raised %s: %s' % (type(e).__name__, str(e)[:200]))
                     return
                 ctx.count('monitor:deepcopies')
                 self.scramble(cur, spec)
                 cur = new
+                restored_by.append('deepcopy')
+            elif op == 'cp':
+                # the flavour is a function of the case (replayable): position in the history + protocol
+                flavour = ('copy.copy', 'state transfer')[(len(done) + proto) % 2]
+                try:
+                    if flavour == 'copy.copy':
+                        new = copy.copy(cur)
+                        state = None
+                    else:
+                        state = cur.__getstate__()
+                        new = type(cur).__new__(type(cur))
+                        if hasattr(new, '__setstate__'):
+                            new.__setstate__(state)
+                        else:
+                            new.__dict__.update(state)
+                except Exception as e:
+                    bad('%s of the template raised %s: %s' % (flavour, type(e).__name__, str(e)[:200]))
+                    return
+                ctx.count('monitor:copies made from the state (%s)' % flavour)
+                if hasattr(cur, '_v_blocks'):
+                    ctx.count('state copies of a cooked template')
+                problems = U.scan_state(state, new, spec)
+                ctx.count('monitor:states scanned')
+                if type(new) is not type(cur):
+                    problems.append('the copy is a %s' % type(new).__name__)
+                if new is cur:
+                    problems.append('the copy is the template itself')
+                for p in problems:
+                    bad(p, flavour=flavour)
+                self.scramble(cur, spec, shallow=True)
+                cur = new
+                restored_by.append(flavour)
             elif op in ('m0', 'm1', 'm2'):
                 j = int(op[1])
                 source = spec.paths[j] if spec.is_file else spec.src[j]
@@ -239,6 +325,7 @@ class Harness:
                     if j == 2 and spec.munge_defaults:
                         mapping, kw = U.DEFAULTS[spec.defaults](2)
                         cur.munge(source, mapping, **kw)
+                        U.set_vars(cur, spec, 2)
                         def_idx = 2
                         ctor_mapping = mapping
                         ctx.count('munges replacing the defaults')
@@ -317,10 +404,10 @@ def run(ctx, spec):
                     h.run_history(spec_.name, hist, persistent, protos[(hi + persistent) % 2], 1 + hi % 3)
         # seeded longer histories
         rng = ctx.rng
-        weights = [3, 3, 3, 2, 2, 2, 2, 1, 1]
+        weights = [3, 3, 3, 2, 2, 2, 2, 1, 1, 2]
         for _ in range(NSEEDED[ctx.tier] // ctx.nshards):
             spec_ = rng.choice(U.SPECS)
-            hist = tuple(rng.choices(OPS, weights, k=rng.randint(4, 8)))
+            hist = tuple(rng.choices(OPS_SEEDED, weights, k=rng.randint(4, 8)))
             h.run_history(spec_.name, hist, rng.random() < 0.5, rng.choice(protos + (0, 3)), rng.randint(1, 3),
                           origin='seeded')
         ctx.count('write-log: classes instrumented', len(h.wlog.installed) if ctx.shard == 0 else 0)
@@ -340,7 +427,19 @@ def finish(agg):
               'monitor:pickles scanned', 'monitor:file-template pickles scanned', 'monitor:deepcopies',
               'monitor:munges', 'monitor:cooks', 'pickles of a cooked template', 'munges replacing the defaults',
               'histories:seeded', 'write-log: classes instrumented',
-              'monitor:fresh results compared with the pristine reference'):
+              'monitor:fresh results compared with the pristine reference',
+              'monitor:copies made from the state (copy.copy)', 'monitor:copies made from the state (state transfer)',
+              'monitor:states scanned', 'state copies of a cooked template',
+              'monitor:results of a twin (same source text as another template of the process, other encoding) '
+              'compared with its pristine reference',
+              # defaults / variables of special value types: every way of restoring that the values themselves
+              # allow must have been followed by a compared render
+              'monitor:renders of a template with special defaults compared after pickle',
+              'monitor:renders of a template with special defaults compared after deepcopy',
+              'monitor:renders of a template with special defaults compared after copy.copy',
+              'monitor:renders of a template with special defaults compared after state transfer',
+              'monitor:renders of a template with tainted defaults compared after copy.copy',
+              'monitor:renders of a template with tainted defaults compared after state transfer'):
         if not c.get(k):
             inc.append('deciding monitor never evaluated: ' + k)
     for r in ('String.__call__', 'String.cook', 'String.munge', 'String.__getstate__', 'FileMixin.read_raw',
@@ -350,14 +449,19 @@ def finish(agg):
     for o in ('render outcome:ok', 'render outcome:exc'):
         if not c.get(o):
             inc.append('no render with ' + o)
-    nh = sum(len(OPS) ** k for k in range(1, MAXLEN[agg['tier']] + 1))
+    # (that tainted defaults refuse to be pickled / deep-copied is an observation about the values on the unchanged
+    # tree, counted but never required: were such a template restored after all, its renders are compared)
+    nh = len(list(all_histories(MAXLEN[agg['tier']])))
     return {'inconclusive': inc,
             'coverage': {'exhaustive': True,
                          'histories_per_template_and_mode': nh,
                          'operations': list(OPS),
-                         'explanation': 'exhaustive over all operation histories up to length %d for every '
-                                        'catalogue template in both caller-data modes; the seeded histories '
-                                        '(length 4..8) are extra' % MAXLEN[agg['tier']]}}
+                         'operations_with_state_copy': list(OPS_CP),
+                         'explanation': 'exhaustive over all operation histories up to length %d over the 9 '
+                                        'operations, plus all histories up to that length over the reduced alphabet '
+                                        '%s that contain a copy made from the state, for every catalogue template in '
+                                        'both caller-data modes; the seeded histories (length 4..8, all 10 operations) '
+                                        'are extra' % (MAXLEN[agg['tier']], '/'.join(OPS_CP))}}
 
 
 def replay(ctx, rep):
